@@ -14,9 +14,9 @@ import (
 
 // VerifBinding describes one name a script can use: where it is bound
 // (global scope, builtins table, macro table), what kind of object it is, and,
-// for objects backed by a Go function, the identifier of the top-level Go
-// function the function value was created in (closures report their
-// enclosing declaration, e.g. CompareFunction for CompareFunction("<")).
+// for objects backed by a Go function, the dotted runtime name of the Go
+// function behind the value without the package name (closures report their
+// enclosing declarations, e.g. CompareFunction.func1 for CompareFunction("<")).
 type VerifBinding struct {
 	Table  string // "global", "builtin", "macro"
 	Name   string
@@ -36,10 +36,11 @@ func verifGoFuncName(f ZlispUserFunction) string {
 	if i := strings.LastIndex(s, "/"); i >= 0 {
 		s = s[i+1:]
 	}
-	// s = "zygo.CompareFunction.func1" or "zygo.ReadFunction"
-	parts := strings.Split(s, ".")
-	if len(parts) >= 2 {
-		return parts[1]
+	// s = "zygo.CompareFunction.func1", "zygo.ReadFunction", or, when the factory call was
+	// inlined into the table function, "zygo.CoreFunctions.CompareFunction.func1":
+	// report everything after the package name; the caller matches on the components.
+	if i := strings.Index(s, "."); i >= 0 {
+		return s[i+1:]
 	}
 	return s
 }
